@@ -11,9 +11,9 @@
 (*          a seek to a negative position or with an unknown whence is an  *)
 (*          error that leaves the position unchanged, seeking past EOF is  *)
 (*          legal and reads there return nothing.                          *)
-(*  Rd*   : transcription of S3RangeFile (storage_backend.py:405-508):     *)
-(*          seek 456-469, readinto 475-484, readall 486-491, _get_range    *)
-(*          493-508, plus io.RawIOBase.read(n) (n<0 -> readall(), else     *)
+(*  Rd*   : transcription of S3RangeFile (storage_backend.py:413-516):     *)
+(*          seek 464-477, readinto 483-492, readall 494-499, _get_range    *)
+(*          501-516, plus io.RawIOBase.read(n) (n<0 -> readall(), else     *)
 (*          readinto(bytearray(n))).                                       *)
 (*  Serve : the object store's answer to "Range: bytes=first-last"         *)
 (*          (S3: 416 when first >= size, `last` clamped to size-1).        *)
@@ -72,32 +72,32 @@ Serve(size, first, last) ==
   ELSE [ok |-> TRUE, lo |-> first, hi |-> Min(last, size - 1) + 1]
 
 (* ============================ S3RangeFile ============================= *)
-\* seek (456-469)
+\* seek (464-477)
 RdSeek(size, pos, off, wh) ==
-  IF wh \notin {0, 1, 2} THEN Out(TRUE, -1, 0, 0, pos, <<>>)                    \* 463-464 ValueError
+  IF wh \notin {0, 1, 2} THEN Out(TRUE, -1, 0, 0, pos, <<>>)                    \* 471-472 ValueError
   ELSE LET new == CASE wh = 0 -> off [] wh = 1 -> pos + off [] OTHER -> size + off
        IN IF new < 0 THEN (IF ClampNegative THEN Out(FALSE, 0, 0, 0, 0, <<>>)
-                           ELSE Out(TRUE, -1, 0, 0, pos, <<>>))                \* 465-466 ValueError
-          ELSE Out(FALSE, new, 0, 0, new, <<>>)                               \* 468-469
+                           ELSE Out(TRUE, -1, 0, 0, pos, <<>>))                \* 473-474 ValueError
+          ELSE Out(FALSE, new, 0, 0, new, <<>>)                               \* 476-477
 
-\* _get_range(first, last) (493-508): one GET; an error surfaces as an exception
-\* readinto(b), want = len(b) (475-484)
+\* _get_range(first, last) (501-516): one GET; an error surfaces as an exception
+\* readinto(b), want = len(b) (483-492)
 RdReadinto(size, pos, want) ==
-  IF want = 0 \/ (pos >= size /\ ~RequestAtEOF) THEN Out(FALSE, 0, 0, 0, pos, <<>>)      \* 477-478
-  ELSE LET last == Min(pos + want, size) - (IF EndPlusOne THEN 0 ELSE 1)                \* 479
+  IF want = 0 \/ (pos >= size /\ ~RequestAtEOF) THEN Out(FALSE, 0, 0, 0, pos, <<>>)      \* 485-486
+  ELSE LET last == Min(pos + want, size) - (IF EndPlusOne THEN 0 ELSE 1)                \* 487
            sv == Serve(size, pos, last)
            n == sv.hi - sv.lo
        IN IF ~sv.ok THEN Out(TRUE, -1, 0, 0, pos, <<<<pos, last>>>>)
           ELSE IF n > want THEN Out(TRUE, -1, 0, 0, pos, <<<<pos, last>>>>)             \* b[:n] = data: size mismatch
-          ELSE Out(FALSE, n, sv.lo, sv.hi, pos + n, <<<<pos, last>>>>)                   \* 481-484
+          ELSE Out(FALSE, n, sv.lo, sv.hi, pos + n, <<<<pos, last>>>>)                   \* 489-492
 
-\* readall (486-491)
+\* readall (494-499)
 RdReadall(size, pos) ==
-  IF pos >= size /\ ~RequestAtEOF THEN Out(FALSE, 0, 0, 0, pos, <<>>)                    \* 487-488
+  IF pos >= size /\ ~RequestAtEOF THEN Out(FALSE, 0, 0, 0, pos, <<>>)                    \* 495-496
   ELSE LET sv == Serve(size, pos, size - 1)
            n == sv.hi - sv.lo
        IN IF ~sv.ok THEN Out(TRUE, -1, 0, 0, pos, <<<<pos, size - 1>>>>)
-          ELSE Out(FALSE, n, sv.lo, sv.hi, pos + n, <<<<pos, size - 1>>>>)               \* 489-491
+          ELSE Out(FALSE, n, sv.lo, sv.hi, pos + n, <<<<pos, size - 1>>>>)               \* 497-499
 
 \* io.RawIOBase.read(n)
 RdRead(size, pos, n) == IF n < 0 THEN RdReadall(size, pos) ELSE RdReadinto(size, pos, n)
@@ -107,7 +107,7 @@ RdStep(size, pos, o) ==
     [] o.op = "read"     -> RdRead(size, pos, o.a)
     [] o.op = "readinto" -> RdReadinto(size, pos, o.a)
     [] o.op = "readall"  -> RdReadall(size, pos)
-    [] o.op = "tell"     -> Out(FALSE, pos, 0, 0, pos, <<>>)                             \* 453-454
+    [] o.op = "tell"     -> Out(FALSE, pos, 0, 0, pos, <<>>)                             \* 461-462
 
 (* ============================ properties ============================== *)
 \* observable agreement of one step (requests are not observable through the file API)
